@@ -24,6 +24,10 @@ pub trait Scenario {
     fn max_steps(&self) -> usize {
         5000
     }
+    /// Should clones, drops and count reads of the shim's `Arc` be scheduling points?
+    fn arc_points(&self) -> bool {
+        false
+    }
 }
 
 #[derive(Clone, Copy)]
@@ -65,6 +69,7 @@ fn run(scn: &dyn Scenario, prefix: Vec<usize>, sigs: Vec<u64>, keep_trace: bool)
             max_steps: scn.max_steps(),
             keep_trace,
             delay: DELAY.with(|d| d.get()),
+            arc_points: scn.arc_points(),
         },
         body,
         judge,
